@@ -68,7 +68,16 @@ var levelVals = []int64{-1, 0, 1, 25, 49, 50, 51, 75, 99, 100, 101}
 // genLevel returns a JSON level value: mostly ints, sometimes strings / floats / junk (coerced before v10).
 func (r *Rng) genLevel() interface{} {
 	v := Pick(r, levelVals)
-	switch r.Intn(40) {
+	switch r.Intn(42) {
+	case 40, 41:
+		// decimal strings only: a leading zero is not octal, prefixes and digit separators are not numbers
+		// (seeded change C08-r8m2 parsed them with base 0)
+		a := v
+		if a < 0 {
+			a = -a
+		}
+		return json.RawMessage(`"` + Pick(r, []string{"0" + itoa(a), "00" + itoa(a), "-0" + itoa(a), "+" + itoa(a), "+0" + itoa(a),
+			"0x" + itoa(a), "0X1f", "0b11", "0o" + itoa(a), "1_0", "0_" + itoa(a), "٥٠"}) + `"`)
 	case 0:
 		return json.RawMessage(`"` + itoa(v) + `"`)
 	case 1:
